@@ -200,7 +200,7 @@ def _finish_path(h, E, st, kind, sig, err, tb, validate_every, npaths):
         values = E.path_model_values()
         st['samples'].append({'harness': h.name, 'decisions': len(E.trace), 'witness_inputs': jsonable(values),
                               'outcome': jsonable(sig), 'obligations': [l for l, _, _ in E.checks]})
-    if h.validate and kind == 'ret' and validate_every and (npaths % validate_every == 0):
+    if h.validate and kind == 'ret' and validate_every and (npaths % validate_every == 1 or validate_every == 1):
         values = values or E.path_model_values()
         if values is None:
             st['val_skipped'] += 1
@@ -234,6 +234,7 @@ def _confirm(h, E, st, label, vals):
             v = None
         if v is not None:
             cands.append(v)
+    cands += _random_candidates(E, vals, 4)
     for v in cands:
         conc = run_concrete(h, v)
         tried.append({'values': jsonable(v), 'kind': conc['kind'], 'failed': conc['failed'], 'sig': jsonable(conc.get('sig'))})
@@ -241,6 +242,28 @@ def _confirm(h, E, st, label, vals):
             st['cex'].append({'harness': h.name, 'label': label, 'values': jsonable(v)})
             return
     st['unconfirmed'].append({'harness': h.name, 'label': label, 'tried': tried[:3]})
+
+
+def _random_candidates(E, base, n):
+    """generic concrete inputs: keep discrete inputs of the solver model, re-draw the reals (a concrete failure of the real code
+    against the oracle is a genuine violation whichever way its inputs were found)"""
+    import random
+    if base is None:
+        return []
+    rnd = random.Random(12345)
+    out = []
+    for _ in range(n):
+        v = dict(base)
+        ok = True
+        for name, (kind, var) in E.inputs.items():
+            if kind == 'real' and name in E.ranges:
+                lo, hi = E.ranges[name]
+                lo = -5.0 if lo is None else float(lo)
+                hi = lo + 10.0 if hi is None else float(hi)
+                v[name] = round(rnd.uniform(lo, hi), 3)
+        if ok:
+            out.append(v)
+    return out
 
 
 # ------------------------------------------------------------------------------------------------ driver
